@@ -15,6 +15,7 @@ BATCHES = {
         ("scarce", 8, 90, {}),
         ("super", 8, 100, {}),
         ("version", 8, 100, {}),
+        ("fault", 8, 100, {}),
     ],
     "thorough": [
         ("reward", 60, 120, {}),
@@ -22,6 +23,7 @@ BATCHES = {
         ("scarce", 80, 140, {}),
         ("super", 80, 160, {}),
         ("version", 80, 160, {}),
+        ("fault", 80, 160, {}),
         ("pay", 60, 140, {}),
         ("life", 80, 140, {}),
         ("auth", 80, 140, {}),
@@ -268,7 +270,7 @@ def replicas_engine(tier, seed, use_cache=True):
         return res
 
 
-FAMILY = ["C02", "C04", "C05", "C06", "C07", "C08", "C09", "C10", "C11", "C12", "C13", "C14", "C15", "C16", "C17", "C20"]
+FAMILY = ["C02", "C04", "C05", "C06", "C07", "C08", "C09", "C10", "C11", "C12", "C13", "C14", "C15", "C16", "C17", "C19", "C20"]
 
 
 def run_property(pid, tier, seed, use_cache=True):
